@@ -198,6 +198,9 @@ func init() {
 		if k := i - ctx.N(12, 90); k >= 0 && k < ctx.N(8, 32) {
 			return crossBranchCase(k, r)
 		}
+		if k := i - ctx.N(12, 90) - ctx.N(8, 32); k >= 0 && k < 24 {
+			return sharedBranchAnyOfCase(k)
+		}
 		return nil
 	}
 	regSem(&semSpec{id: "C03",
@@ -279,7 +282,10 @@ func init() {
 			if i < 56 {
 				return stringDefaultCase(i - 32)
 			}
-			return sameNameTwinCase(ctx, i-56, r)
+			if i < 62 {
+				return untypedDefaultCase(i - 56)
+			}
+			return sameNameTwinCase(ctx, i-62, r)
 		},
 		values: true, defaults: true,
 		nQuick: 400, nThor: 6000, valid: 3, perSite: 3, maxDocs: 120, minDec: 2000,
@@ -329,6 +335,8 @@ func init() {
 					return dashNameCase(k)
 				} else if k -= 12; k < 5 {
 					return lenientFormatCase(k)
+				} else if k -= 5; k < 8 {
+					return percentNameCase(k)
 				}
 				return nil
 			}
@@ -1061,6 +1069,30 @@ func fractionalMultipleCase(i int) *sem.Case {
 	return c
 }
 
+// percentNameCase: property names with characters that are special inside a format string or a Go string literal
+// but harmless in a struct tag ("usage%", "100%d", "a%sb"): required, with rules, through both decoding paths.
+func percentNameCase(i int) *sem.Case {
+	names := [][]string{{"usage%", "plain"}, {"100%d", "a%sb", "%v"}, {"rate%%", "x%!y"}, {"q%[1]d", "tab%t"}}[i%4]
+	obj := &sg.Schema{Types: []string{"object"}}
+	full := jsonx.Obj{}
+	for k, n := range names {
+		obj.Props = append(obj.Props, sg.Prop{Name: n, S: &sg.Schema{Types: []string{"integer"}, Min: sg.Fp(0), Max: sg.Fp(100)}})
+		full = append(full, jsonx.KV{K: n, V: jsonx.N(int64(10 + k))})
+	}
+	obj.Required = append([]string{}, names...)
+	if (i/4)%2 == 1 {
+		obj.Required = names[:1]
+	}
+	root := &sg.Schema{Types: []string{"object"}, Props: []sg.Prop{{Name: "sample", S: obj}}, Required: []string{"sample"}}
+	c := &sem.Case{Root: root, Sig: fmt.Sprintf("percent-name/%d", i%8), NoAuto: true, Args: []string{"--extra-imports"}}
+	c.Docs = append(c.Docs, docgen.Doc{V: jsonx.Obj{{K: "sample", V: full}}, Class: "valid", Label: "valid"})
+	for _, kv := range full {
+		c.Docs = append(c.Docs, docgen.Doc{V: jsonx.Obj{{K: "sample", V: full.Del(kv.K)}}, Class: "required", Label: "without-" + kv.K},
+			docgen.Doc{V: jsonx.Obj{{K: "sample", V: full.Set(kv.K, jsonx.N(101))}}, Class: "bound", Label: "maximum-" + kv.K})
+	}
+	return c
+}
+
 // dashNameCase: a property named "-" (which struct tags read as "skip this field" - recorded finding
 // name-breaks-tag, so the verdict against the model is that finding); JSON and YAML must still treat it alike.
 func dashNameCase(i int) *sem.Case {
@@ -1294,6 +1326,64 @@ func bothDefsKeywordsCase(i int) *sem.Case {
 	}
 	for _, v := range k.notIn {
 		c.Docs = append(c.Docs, docgen.Doc{V: jsonx.Obj{{K: "status", V: v}}, Class: "enumref", Label: "non-member"}, docgen.Doc{V: jsonx.Obj{{K: "status", V: first}, {K: "history", V: []any{v}}}, Class: "enumref", Label: "non-member-item"})
+	}
+	return c
+}
+
+// sharedBranchAnyOfCase: one definition referred to from two separate anyOf lists of one schema (first, last or only
+// member; the lists generated in either order): each list keeps enforcing its own branches.
+func sharedBranchAnyOfCase(i int) *sem.Case {
+	addr := &sg.Schema{Types: []string{"object"}, Props: []sg.Prop{{Name: "street", S: &sg.Schema{Types: []string{"string"}}}, {Name: "city", S: &sg.Schema{Types: []string{"string"}}}}, Required: []string{"street"}}
+	lock := &sg.Schema{Types: []string{"object"}, Props: []sg.Prop{{Name: "lockerId", S: &sg.Schema{Types: []string{"string"}}}}, Required: []string{"lockerId"}}
+	ra := func() *sg.Schema { return &sg.Schema{Ref: "#/$defs/Address", Target: addr} }
+	rl := func() *sg.Schema { return &sg.Schema{Ref: "#/$defs/Locker", Target: lock} }
+	lists := [][2][]*sg.Schema{
+		{{ra(), rl()}, {ra()}}, {{rl(), ra()}, {ra()}}, {{ra(), rl()}, {rl()}}, {{ra(), rl()}, {ra(), rl()}}, {{ra(), rl()}, {rl(), ra()}}, {{ra()}, {ra(), rl()}},
+	}[i%6]
+	n1, n2 := "dropoff", "pickup"
+	if (i/6)%2 == 1 {
+		n1, n2 = "pickup", "dropoff"
+	}
+	root := &sg.Schema{Types: []string{"object"}, Defs: []sg.Prop{{Name: "Address", S: addr}, {Name: "Locker", S: lock}},
+		Props: []sg.Prop{{Name: n1, S: &sg.Schema{AnyOf: lists[0]}}, {Name: n2, S: &sg.Schema{AnyOf: lists[1]}}}}
+	if (i/12)%2 == 1 {
+		root.Required = []string{n1, n2}
+	}
+	c := &sem.Case{Root: root, Sig: fmt.Sprintf("shared-branch-anyof/%d", i%12), NoAuto: true}
+	okFor := func(l []*sg.Schema) jsonx.Obj {
+		if l[0].Target == addr {
+			return jsonx.Obj{{K: "street", V: "Main St 1"}}
+		}
+		return jsonx.Obj{{K: "lockerId", V: "L-1"}}
+	}
+	for _, v := range []jsonx.Obj{{{K: "street", V: "s"}}, {{K: "lockerId", V: "L"}}, {{K: "city", V: "Oslo"}}, {}, {{K: "street", V: "s"}, {K: "lockerId", V: "L"}}} {
+		c.Docs = append(c.Docs, docgen.Doc{V: jsonx.Obj{{K: n1, V: v}, {K: n2, V: okFor(lists[1])}}, Class: "sharedbranch", Label: n1}, docgen.Doc{V: jsonx.Obj{{K: n1, V: okFor(lists[0])}, {K: n2, V: v}}, Class: "sharedbranch", Label: n2})
+	}
+	return c
+}
+
+// untypedDefaultCase: properties without a type keyword (Go: interface{}) that carry a scalar default, the zero
+// values included: absent and null decode to the default, not to nil.
+func untypedDefaultCase(i int) *sem.Case {
+	defs := []any{false, jsonx.N(0), "", true, jsonx.N(3), "x", jsonx.Num("1.5"), jsonx.Num("0.0")}
+	root := &sg.Schema{Types: []string{"object"}}
+	all := jsonx.Obj{}
+	for k, d := range defs {
+		if (k+i)%2 == 0 && i%3 != 0 {
+			continue
+		}
+		key := fmt.Sprintf("u%d", k)
+		root.Props = append(root.Props, sg.Prop{Name: key, S: &sg.Schema{Desc: "anything", Default: d, HasDefault: true}})
+		all = append(all, jsonx.KV{K: key, V: "present"})
+	}
+	root.Props = append(root.Props, sg.Prop{Name: "typed", S: &sg.Schema{Types: []string{"boolean"}, Default: false, HasDefault: true}})
+	c := &sem.Case{Root: root, Sig: fmt.Sprintf("untyped-default/%d", i%6), NoAuto: true}
+	if i%2 == 1 {
+		c.Args = []string{"--extra-imports"}
+	}
+	c.Docs = append(c.Docs, docgen.Doc{V: jsonx.Obj{}, Class: "default", Label: "all-absent"}, docgen.Doc{V: all, Class: "default", Label: "all-present"})
+	for _, kv := range all {
+		c.Docs = append(c.Docs, docgen.Doc{V: jsonx.Obj{{K: kv.K, V: nil}}, Class: "default", Label: "null-" + kv.K}, docgen.Doc{V: all.Del(kv.K), Class: "default", Label: "absent-" + kv.K})
 	}
 	return c
 }
